@@ -61,10 +61,16 @@ def cases(tier, seed):
                 from ..absfont import MS, PS
 
                 g_ = rng.choice(cands)
+                # the colour alternates have advances of their own (they differ from the default-layer glyphs of the same
+                # name); `ly` is drawn in the layer under the NAME of a default-layer glyph when one is free
+                simple = sorted(n_ for n_, g in glyphs.items() if not g["comps"] and n_ != g_ and n_ != ".notdef")
+                ly = rng.choice(simple) if simple and k % 2 else "ly"
                 layers = {"color1": {
-                    g_: {"cs": [], "comps": [{"b": "lx", "m": [MS, 0, 0, MS], "d": [10 * PS, 0]}], "anchors": [], "w": glyphs[g_]["w"], "h": 0, "u": []},
-                    "lx": {"cs": [], "comps": [{"b": "ly", "m": [-MS, 0, 0, MS], "d": [200 * PS, 0]}], "anchors": [], "w": 0, "h": 0, "u": []},
-                    "ly": {"cs": [[[0, 0, "line"], [100 * PS, 0, "line"], [50 * PS, 80 * PS, "line"]]], "comps": [], "anchors": [], "w": 0, "h": 0, "u": []}}}
+                    g_: {"cs": [], "comps": [{"b": "lx", "m": [MS, 0, 0, MS], "d": [10 * PS, 0]}], "anchors": [],
+                         "w": glyphs[g_]["w"] + (rng.choice([-80, 37, 120]) * PS if k % 4 < 3 else 0), "h": 0, "u": []},
+                    "lx": {"cs": [], "comps": [{"b": ly, "m": [-MS, 0, 0, MS], "d": [200 * PS, 0]}], "anchors": [], "w": 0, "h": 0, "u": []},
+                    ly: {"cs": [[[0, 0, "line"], [100 * PS, 0, "line"], [50 * PS, 80 * PS, "line"]]], "comps": [], "anchors": [],
+                         "w": (glyphs[ly]["w"] + 62 * PS) if ly in glyphs else 0, "h": 0, "u": []}}}
                 ufo_lib = dict(ufo_lib)
                 ufo_lib["com.github.googlei18n.ufo2ft.colorPalettes"] = [[[1.0, 0.0, 0.0, 1.0], [0.0, 0.5, 1.0, 1.0]]]
                 ufo_lib["com.github.googlei18n.ufo2ft.colorLayerMapping"] = [["color1", 1]]
@@ -104,6 +110,22 @@ def execute(case):
     rec = compile_exec.static_compile(case)
     if case["ufo"].get("layers") and "opts" in rec:
         rec["opts"]["srcExempt"] = True      # (the colour-layer filter's lib write is finding F-C07-2, decided by C07)
+        # the colour alternates are exported glyphs too: '<glyph>.<layer>' draws the layer's glyph, its components resolved
+        # inside the layer, with the layer glyph's own advance and no code point
+        for lname, lglyphs in case["ufo"]["layers"].items():
+            todo = [n for n in lglyphs if n in case["ufo"]["glyphs"]]
+            seen = set()
+            while todo:
+                n = todo.pop()
+                if n in seen:
+                    continue
+                seen.add(n)
+                todo.extend(c["b"] for c in lglyphs[n]["comps"])
+            for n in seen:
+                g = dict(lglyphs[n])
+                g["comps"] = [dict(c, b=f"{c['b']}.{lname}") for c in g["comps"]]
+                g["u"] = []
+                rec.setdefault("srcExtra", {})[f"{n}.{lname}"] = g
     return [rec]
 
 
